@@ -561,10 +561,14 @@ func pgApply(stp **pgState, toks []string) (opline, obs string, tags []string) {
 					func(context.Context, *GetPromptRequest) (*GetPromptResult, error) { return &GetPromptResult{}, nil })
 			case "resources":
 				st.srv.AddResource(&Resource{URI: k, Name: v},
-					func(context.Context, *ReadResourceRequest) (*ReadResourceResult, error) { return &ReadResourceResult{}, nil })
+					func(context.Context, *ReadResourceRequest) (*ReadResourceResult, error) {
+						return &ReadResourceResult{Contents: []*ResourceContents{{Text: "x"}}}, nil
+					})
 			case "templates":
 				st.srv.AddResourceTemplate(&ResourceTemplate{URITemplate: k, Name: v},
-					func(context.Context, *ReadResourceRequest) (*ReadResourceResult, error) { return &ReadResourceResult{}, nil })
+					func(context.Context, *ReadResourceRequest) (*ReadResourceResult, error) {
+						return &ReadResourceResult{Contents: []*ResourceContents{{Text: "x"}}}, nil
+					})
 			}
 		}
 		return opline, "ok", []string{"add", "add-" + kind}
